@@ -583,3 +583,49 @@ def rewrite(t, mapping, depth=0):
         if nr != r:
             return rewrite(nr, mapping, depth + 1)
     return r
+
+
+def fold(t, load=None):
+    """bottom-up constant folding: conditionals whose condition is a literal pick their branch, operators re-normalise; `load`
+    (lvalue term -> value term or None) resolves element loads, e.g. from a local table of constants (summ.table_loader)"""
+    if not isinstance(t, tuple) or not t:
+        return t
+    k = t[0]
+    if not isinstance(k, str):
+        return tuple(fold(x, load) for x in t)
+    if k in ("int", "float", "str", "sym", "var", "glob", "unk", "obj", "new", "prop", "title"):
+        return t
+    if k == "poly":
+        r = ZERO
+        for m, c in t[1]:
+            prod = ("int", c)
+            for x in m:
+                prod = mul(prod, fold(x, load))
+            r = add(r, prod)
+        return r
+    if k == "cond":
+        c = fold(t[1], load)
+        if c[0] == "int":
+            return fold(t[2] if c[1] else t[3], load)
+        return ("cond", c, fold(t[2], load), fold(t[3], load))
+    if k == "idx":
+        r = idx(fold(t[1], load), fold(t[2], load))
+        if load is not None:
+            v = load(r)
+            if v is not None:
+                return fold(v, load)
+        return r
+    if k == "fld":
+        return fld(fold(t[1], load), t[2])
+    if k == "addr":
+        return addr(fold(t[1], load))
+    if k == "op":
+        return binop(t[1], fold(t[2], load), fold(t[3], load))
+    if k == "un":
+        return unop(t[1], fold(t[2], load))
+    if k == "cast":
+        x = fold(t[2], load)
+        return x if x[0] == "int" and "bool" in str(t[1]) and x[1] in (0, 1) else ("cast", t[1], x)
+    if k == "call":
+        return ("call", t[1], tuple(fold(x, load) for x in t[2])) + tuple(t[3:])
+    return tuple(fold(x, load) if isinstance(x, tuple) else x for x in t)
